@@ -312,3 +312,114 @@ def y2(prog):
                                  fld, st, initial[fld], st, ", ".join(e[1] for e in ent), st, ", ".join(e[1] for e in bad)),
                              "detail": None})
     return inst, findings
+
+
+# ---------------------------------------------------------------------------
+# N3: the suffix operators and if-then-else build their documented trees (grammar actions interpreted from source)
+
+def n3(prog):
+    """The bison actions of `E?`, `E*`, `E+` and `if C then A else B`, interpreted on an operand of every tree kind:
+      E?  = ALT over E's alternatives (E itself unless E is already an ALT) plus NOP      -- `E?` is `(E,)`
+      E*  = CLOSE_STAR(SCOPE E), except that a closure directly under it is reused: (F*)* = F*, (F+)* = F*
+      E+  = CLOSE_PLUS(SCOPE E), except (F*)+ = F* and (F+)+ = F+
+      if  = IFELSE(SCOPE C, SCOPE A, SCOPE B)
+    Any other rewriting (for instance collapsing `F+?` into `F*`) changes how often a stack is yielded."""
+    import grammar
+    from absint import Break
+    from cxxobj import CxxEvaluator, Obj, Struct, Vec, Buf, Ptr, OutOfBounds, Sym
+    from absint import Thrown
+    from r_scope import tree_types
+    inst, findings = [], []
+    tt = tree_types(prog)
+    names = {v: k for k, v in tt.items()}
+    ev = CxxEvaluator({"method:release": lambda ev, o, a: o}, {}, prog=prog)
+
+    def mk(kind, children=()):
+        t = Obj("tree")
+        t.m_tt = ("enum", kind, tt[kind])
+        t.m_children = Vec(list(children), "children")
+        t.m_str = t.m_cst = t.m_builtin = None
+        t.m_scope = None
+        return t
+
+    def kd(t):
+        return t.m_tt[1] if isinstance(t.m_tt, tuple) else names.get(t.m_tt, t.m_tt)
+
+    def shape(t, depth=0):
+        if not isinstance(t, Obj) or depth > 6:
+            return repr(t)
+        k = kd(t)
+        ch = [shape(c, depth + 1) for c in t.m_children.items]
+        return k + ("(" + ", ".join(ch) + ")" if ch else "")
+
+    def run_action(lhs, rhs, operands):
+        stmts, ids, n = grammar.action(prog, lhs, rhs)
+        if "yyvsp" not in ids or "yyval" not in ids:
+            raise Broken("action of %s: %s does not use yyvsp/yyval (unmodelled)" % (lhs, " ".join(rhs)))
+        buf = Buf(16)
+        base = 10
+        for i in range(16):
+            buf.cells[i] = Struct("YYSTYPE", {})
+        for pos, val in operands.items():          # $pos
+            buf.cells[base + pos - n].t = val
+        yyval = Struct("YYSTYPE", {})
+        env = {ids["yyvsp"]: Ptr(buf, base), ids["yyval"]: yyval}
+        try:
+            for s in stmts:
+                ev.block(s, env, None)
+        except Break:
+            pass
+        return getattr(yyval, "t", None)
+    kinds = [k for k in sorted(tt) if not k.startswith("PRED_")]
+
+    def operand(k):
+        if k in ("CLOSE_STAR", "CLOSE_PLUS", "SCOPE", "CAPTURE", "SUBX_EVAL", "BLOCK", "ASSERT"):
+            return mk(k, [mk("NOP")])
+        if k in ("ALT", "OR", "CAT"):
+            return mk(k, [mk("NOP"), mk("F_DEBUG")])
+        if k == "IFELSE":
+            return mk(k, [mk("NOP"), mk("NOP"), mk("NOP")])
+        return mk(k)
+    rows = [("E?", ["Statement", "TOK_QMARK"]), ("E*", ["Statement", "TOK_ASTERISK"]), ("E+", ["Statement", "TOK_PLUS"])]
+    try:
+        for label, rhs in rows:
+            key = "N3:" + label
+            bad = None
+            for k in kinds:
+                e = operand(k)
+                inner = [shape(x) for x in e.m_children.items]
+                before = shape(e)
+                r = run_action("Statement", rhs, {1: e})
+                if label == "E?":
+                    exp_children = (inner if k == "ALT" else [before]) + ["NOP"]
+                    ok = isinstance(r, Obj) and kd(r) == "ALT" and [shape(c) for c in r.m_children.items] == exp_children
+                    want = "ALT(%s, NOP)" % (", ".join(inner) if k == "ALT" else before)
+                else:
+                    me = "CLOSE_STAR" if label == "E*" else "CLOSE_PLUS"
+                    if k in ("CLOSE_STAR", "CLOSE_PLUS"):
+                        res_kind = "CLOSE_STAR" if (label == "E*" or k == "CLOSE_STAR") else "CLOSE_PLUS"
+                        want = "%s(%s)" % (res_kind, ", ".join(inner))
+                        ok = shape(r) == want
+                    else:
+                        want = "%s(SCOPE(%s))" % (me, before)
+                        ok = shape(r) == want
+                if not ok and bad is None:
+                    bad = "`%s` with E = %s builds %s; documented meaning is %s" % (label, before, shape(r), want)
+            inst.append((key, {"operand_kinds": len(kinds)}))
+            if bad:
+                findings.append({"key": key, "where": "libzwerg/parser.yy", "msg": bad + ": the rewritten program yields a different multiset of stacks (a stack on a cycle of F is yielded once by F* but twice by (F+,))" if label == "E?" else bad, "detail": None})
+        # if-then-else
+        bad = None
+        for k in ("NOP", "ALT", "SCOPE", "CLOSE_STAR"):
+            c, a, b = operand(k), operand("CONST"), operand("OR")
+            r = run_action("Statement", ["TOK_IF", "Statement", "TOK_THEN", "Statement", "TOK_ELSE", "Statement"], {2: c, 4: a, 6: b})
+            want = "IFELSE(SCOPE(%s), SCOPE(%s), SCOPE(%s))" % (shape(c), shape(a), shape(b))
+            ok = shape(r) == want
+            if not ok and bad is None:
+                bad = "`if C then A else B` builds %s instead of IFELSE(SCOPE C, SCOPE A, SCOPE B)" % shape(r)
+        inst.append(("N3:if-then-else", {"operand_kinds": 4}))
+        if bad:
+            findings.append({"key": "N3:if-then-else", "where": "libzwerg/parser.yy", "msg": bad, "detail": None})
+    except (OutOfBounds, Thrown) as x:
+        raise Broken("grammar action cannot be evaluated: %s" % x)
+    return inst, findings
